@@ -38,7 +38,7 @@ import (
 type c01cCred struct {
 	Format  string `json:"fmt"`     // ldp_vc | jwt_vc
 	Subject string `json:"subject"` // presenter | other | none | mixed | double
-	Issuer  string `json:"issuer"`  // I | F | I-by-other | self | noproof-S | noproof-O
+	Issuer  string `json:"issuer"`  // I | F | I-by-other | I-by-near | self | noproof-S | noproof-O
 }
 
 type c01cCase struct {
@@ -48,17 +48,43 @@ type c01cCase struct {
 	Creds     []c01cCred `json:"creds"`
 	Tamper    string     `json:"tamper,omitempty"` // undefined: add a member no context defines to the first proof-less credential (JSON-LD presentations) | forge-jwt: change a claim of the first JWT credential, signature kept
 	Domain    bool       `json:"domain,omitempty"`
+	// near-miss identities: Near = how the foreign DID is derived (path | host-suffix | suffix | prefix | case); it signs the
+	// credentials whose issuer is "I-by-near" (naming I as issuer) and, with SignerNear, the presentation itself (whose
+	// credentials and holder name the presenter)
+	Near       string `json:"near,omitempty"`
+	SignerNear bool   `json:"signerNear,omitempty"`
 }
 
 func c01cGen(t *rapid.T) c01cCase {
 	// a third of the cases is steered towards the self-attested corner (presenter = holder, proof-less or self-issued
 	// credentials, mostly JSON-LD envelope, mostly tampered with after signing)
-	corner := rapid.IntRange(0, 2).Draw(t, "corner") == 0
+	mode := rapid.IntRange(0, 5).Draw(t, "corner")
+	corner := mode <= 1
+	// a sixth is steered towards near-miss identities: everything in order, except that the presentation or one credential
+	// is signed by a resolvable DID whose name merely resembles the holder's / issuer's
+	nearCorner := mode == 2
 	c := c01cCase{
 		VPFormat: rapid.SampledFrom([]string{"ldp_vp", "jwt_vp"}).Draw(t, "vpfmt"),
 		Domain:   rapid.Bool().Draw(t, "domain"),
+		Near:     rapid.SampledFrom(c01NearMissVariants).Draw(t, "near"),
 	}
 	n := rapid.SampledFrom([]int{0, 1, 1, 1, 2, 2, 3}).Draw(t, "n")
+	if nearCorner {
+		c.Presenter = rapid.SampledFrom([]string{"S", "S", "O"}).Draw(t, "presenter")
+		c.Holder = rapid.SampledFrom([]string{"", c.Presenter}).Draw(t, "holder")
+		c.SignerNear = rapid.IntRange(0, 2).Draw(t, "signerNear") == 0
+		if n == 0 {
+			n = 1
+		}
+		for i := 0; i < n; i++ {
+			cc := c01cCred{Format: rapid.SampledFrom([]string{"ldp_vc", "jwt_vc"}).Draw(t, fmt.Sprintf("c%d.fmt", i)), Subject: "presenter", Issuer: "I"}
+			if !c.SignerNear && (i == 0 || rapid.Bool().Draw(t, fmt.Sprintf("c%d.near", i))) {
+				cc.Issuer = "I-by-near"
+			}
+			c.Creds = append(c.Creds, cc)
+		}
+		return c
+	}
 	if corner {
 		c.VPFormat = rapid.SampledFrom([]string{"ldp_vp", "ldp_vp", "jwt_vp"}).Draw(t, "cornerfmt")
 		c.Presenter = rapid.SampledFrom([]string{"S", "S", "S", "S", "S", "O"}).Draw(t, "presenter")
@@ -71,6 +97,7 @@ func c01cGen(t *rapid.T) c01cCase {
 		c.Presenter = rapid.SampledFrom([]string{"S", "S", "S", "S", "O", "F"}).Draw(t, "presenter")
 		c.Holder = rapid.SampledFrom([]string{"", "S", "S", "O"}).Draw(t, "holder")
 		c.Tamper = rapid.SampledFrom([]string{"", "", "", "", "undefined", "forge-jwt"}).Draw(t, "tamper")
+		c.SignerNear = c.Presenter != "F" && rapid.IntRange(0, 9).Draw(t, "signerNear") == 0
 	}
 	for i := 0; i < n; i++ {
 		cc := c01cCred{Format: rapid.SampledFrom([]string{"ldp_vc", "jwt_vc"}).Draw(t, fmt.Sprintf("c%d.fmt", i))}
@@ -79,7 +106,7 @@ func c01cGen(t *rapid.T) c01cCase {
 			cc.Issuer = rapid.SampledFrom([]string{"noproof-S", "noproof-S", "noproof-S", "self", "self", "I", "noproof-O"}).Draw(t, fmt.Sprintf("c%d.issuer", i))
 		} else {
 			cc.Subject = rapid.SampledFrom([]string{"presenter", "presenter", "presenter", "presenter", "presenter", "other", "none", "mixed", "double"}).Draw(t, fmt.Sprintf("c%d.subject", i))
-			cc.Issuer = rapid.SampledFrom([]string{"I", "I", "I", "I", "self", "F", "I-by-other", "noproof-S", "noproof-S", "noproof-O"}).Draw(t, fmt.Sprintf("c%d.issuer", i))
+			cc.Issuer = rapid.SampledFrom([]string{"I", "I", "I", "I", "self", "F", "I-by-other", "I-by-near", "noproof-S", "noproof-S", "noproof-O"}).Draw(t, fmt.Sprintf("c%d.issuer", i))
 		}
 		c.Creds = append(c.Creds, cc)
 	}
@@ -113,6 +140,14 @@ func c01cRun(x *h.Ctx, c c01cCase) {
 	}
 	v, _ := f.newVerifier(x)
 	wallet := f.newWallet(v)
+	nearVariant := "path"
+	for _, nv := range c01NearMissVariants {
+		if nv == c.Near {
+			nearVariant = nv
+		}
+	}
+	var nearI *c01DID // the near miss of the issuer I, created on demand
+	signerNear := c.SignerNear && presenter != F
 
 	issued := c01T0.Add(10 * time.Second)
 	var creds []vc.VerifiableCredential
@@ -165,6 +200,13 @@ func c01cRun(x *h.Ctx, c c01cCase) {
 			issuer = I
 			allOK = false
 			fail("credential-proof-by-key-of-another-did")
+		case "I-by-near":
+			issuer = I
+			allOK = false
+			fail("credential-proof-by-near-miss-did:" + nearVariant)
+			if nearI == nil {
+				nearI = f.newNearMiss(x, I, nearVariant, c01T0)
+			}
 		case "self":
 			issuer = presenter
 			if presenter == F {
@@ -193,6 +235,10 @@ func c01cRun(x *h.Ctx, c c01cCase) {
 			// names I as issuer but carries a (cryptographically valid) proof by a key of another DID
 			spec.KID = other.keys[0].KID
 		}
+		if cc.Issuer == "I-by-near" {
+			// names I as issuer, carries a valid proof by the key of a DID that merely resembles I
+			spec.KID = nearI.keys[0].KID
+		}
 		spec.ID = fmt.Sprintf("%s#c-%d", issuer.DID.String(), f.seq.Add(1))
 		creds = append(creds, f.signCredential(x, spec))
 	}
@@ -216,6 +262,10 @@ func c01cRun(x *h.Ctx, c c01cCase) {
 		}
 	}
 	signer := presenter.DID
+	if signerNear {
+		// signed by a resolvable DID (own working key) that merely resembles the presenter named by credentials and holder
+		signer = f.newNearMiss(x, presenter, nearVariant, c01T0).DID
+	}
 	vp, err := wallet.BuildPresentation(audit.TestContext(), creds, opts, &signer, false)
 	x.NoErr(err, "BuildPresentation")
 	raw := vp.Raw()
@@ -232,6 +282,13 @@ func c01cRun(x *h.Ctx, c c01cCase) {
 	switch {
 	case presenter == F:
 		expect, why = "reject", "presentation-signature-invalid"
+	case signerNear && len(creds) > 0:
+		expect, why = "reject", "signer-is-near-miss-of-subject:"+nearVariant
+	case signerNear:
+		// no credentials: the signature is the near-miss DID's own and valid; a holder member names somebody else
+		if c.Holder != "" {
+			expect, why = "either", "no-credentials-foreign-holder"
+		}
 	case len(creds) == 0:
 		if !holderOK {
 			expect, why = "either", "no-credentials-foreign-holder"
